@@ -1,11 +1,17 @@
 (* C03 — Variables resolve lexically and no unresolved variable reaches the output.
-   PARTIAL (see DESIGN.md): the lookup / shadowing / locality / unbound-is-error lemmas below are proved of the
-   scope model; the end-to-end statement "evaluation = evaluation after lexical substitution" is checked by
-   the correspondence against the reference semantics Spec/Sem.v (lexical environment, top level: last
-   definition wins) and is FALSE on the pinned tree for a top-level name used between two definitions (F12). *)
+   END TO END (C03_lexical_end_to_end): for every stylesheet made of nested rules (any depth), variable
+   definitions at any depth and declarations whose values are words, references and calls of unknown
+   functions over those, the evaluator model produces, rule by rule and in the same order, exactly the
+   declarations of the reference semantics Spec/Sem.v (lexical environment: innermost enclosing block first,
+   then the top level, where every definition is visible everywhere), and fails iff the reference semantics
+   fails (unbound reference, cycle).  Hypothesis: no top-level name is defined twice -- without it the
+   statement is FALSE of the faithful model and of the code (F12: a top-level name used between two of its
+   definitions takes the earlier one; known finding, C03_toplevel_redefinition_refuted below).
+   The lookup / shadowing / locality / unbound-is-error lemmas are kept.  Arithmetic inside values is C04;
+   mixin parameters are C05; interpolation is C18. *)
 From Coq Require Import String.
 From Coq Require Import List Ascii Bool NArith.
-Require Import Model.Text Model.Ast Model.Scope Model.Ident Model.Fmt Model.Eval Proofs.ScopeProofs.
+Require Import Model.Text Model.Ast Model.Scope Model.Ident Model.Fmt Model.Eval Spec.Sem Proofs.EvalProofs Proofs.ScopeProofs Proofs.VarProofs.
 Import ListNotations.
 
 Theorem C03_lookup_innermost : forall x sc, variables x sc = find_innermost x sc.
@@ -26,6 +32,62 @@ Theorem C03_unbound_fails :
     eval_value (S fuel) sc (VVar x :: rest) = RError $"SyntaxError" ($"Unknown variable " ++ x).
 Proof. exact unbound_is_error. Qed.
 Print Assumptions C03_unbound_fails.
+
+(* values: with the same bindings visible, the model's substitute-until-stable loop (Node.process / Scope.swap, fuel = the
+   code's round limit) and the reference substitution give the same token list, or both fail *)
+Theorem C03_value_matches_reference :
+  forall fuel sc e ts, lookup_equiv sc e -> scope_ok sc = true -> val_ok ts = true ->
+    same_val (eval_value fuel sc ts) (sval_toks fuel e ts).
+Proof. exact value_refines. Qed.
+Print Assumptions C03_value_matches_reference.
+
+(* one statement (declaration, definition, rule with everything nested in it) in any context *)
+Theorem C03_statement_matches_reference :
+  forall n, vr_only n -> forall parent sc callf media at_ parent' e,
+    lookup_equiv sc e -> scope_ok sc = true ->
+    node_rel (eval_node parent sc n) (sem_node callf media at_ parent' e n).
+Proof. exact vr_node. Qed.
+Print Assumptions C03_statement_matches_reference.
+
+(* the whole stylesheet, evaluated as compile_nodes does (global frame = every top-level definition, then the second pass
+   re-registering them in order) against the reference semantics *)
+Theorem C03_lexical_end_to_end :
+  forall callf units, Forall top_item units -> NoDup (top_names units) ->
+    sheet_rel (eval_units (initial_scope units) units) (sem_units callf (top_env units) units).
+Proof. exact lexical_end_to_end. Qed.
+Print Assumptions C03_lexical_end_to_end.
+
+(* non-vacuity: a program with shadowing at two depths, a use before the top-level definition, a value referring to another
+   variable and a call over a variable satisfies the hypotheses, and both sides give the declarations written here *)
+Definition c03_prog : list node :=
+  [NVar $"@a" [VVar $"@b"; VT $" "; VT $"solid"];
+   NBlock [$".x"] [NProp $"border" [VVar $"@a"] false;
+                   NVar $"@b" [VT $"5px"];
+                   NBlock [$".y"] [NVar $"@b" [VT $"7px"]; NProp $"top" [VCall $"f" [VVar $"@b"]] true];
+                   NProp $"width" [VVar $"@b"] false];
+   NBlock [$".z"] [NProp $"left" [VVar $"@b"] false];
+   NVar $"@b" [VT $"2px"]].
+Example C03_end_to_end_nonvacuous :
+  Forall top_item c03_prog /\ NoDup (top_names c03_prog) /\
+  (exists os, eval_units (initial_scope c03_prog) c03_prog = ROk os /\
+     flat_map mdecls os = [[($"border", $"2px solid", false); ($"width", $"5px", false)];
+                           [($"top", $"f(7px)", true)];
+                           [($"left", $"2px", false)]]).
+Proof.
+  split; [repeat constructor|]. split.
+  - repeat constructor; cbn; intuition discriminate.
+  - eexists. split; vm_compute; reflexivity.
+Qed.
+
+(* without the hypothesis the statement fails: a name used between two top-level definitions (F12) *)
+Theorem C03_toplevel_redefinition_refuted :
+  exists units, Forall top_item units /\
+    ~ sheet_rel (eval_units (initial_scope units) units) (sem_units (fun _ _ _ _ _ e => SOk (e, [], [], [])) (top_env units) units).
+Proof.
+  exists [NVar $"@v" [VT $"1px"]; NBlock [$".z"] [NProp $"margin" [VVar $"@v"] false]; NVar $"@v" [VT $"3px"]].
+  split; [repeat constructor|]. vm_compute. intros H. discriminate H.
+Qed.
+Print Assumptions C03_toplevel_redefinition_refuted.
 
 Example C03_example :
   compile_nodes (false, false, false, 1)
